@@ -2,6 +2,7 @@ package main
 
 import (
 	"fmt"
+	"regexp"
 	"go/types"
 	"sort"
 	"strings"
@@ -241,7 +242,60 @@ func (fx *FX) runTop() (errmsg string) {
 				}
 			}
 			ob := &Obligation{Name: fx.name + ".cover(return)", Kind: "cover", Func: fx.name, Clause: "a return is reachable", Expect: "sat", Props: c.Props}
-			fx.items = append(fx.items, item{kind: "oblig", ob: ob, reach: first.st.reach, goal: False})
+			// some return (the solver may pick whichever path is easiest to satisfy; paths through calls
+			// with quantified preconditions would otherwise leave the guard undecided)
+			// prefer the earliest return whose path condition is quantifier-free (a path through a call
+			// with a quantified precondition can leave the guard undecided although it is satisfiable)
+			defs := map[string]string{}
+			defRe := regexp.MustCompile(`^\(define-fun (\S+) \(\) \S+ (.*)\)$`)
+			for _, it := range fx.items {
+				if it.kind == "decl" {
+					if m := defRe.FindStringSubmatch(it.text); m != nil {
+						defs[m[1]] = m[2]
+					}
+				}
+			}
+			memo := map[string]bool{}
+			nameRe := regexp.MustCompile(`[A-Za-z_][A-Za-z0-9_!.]*`)
+			var quantified func(term string, depth int) bool
+			quantified = func(term string, depth int) bool {
+				if strings.Contains(term, "(forall ") || strings.Contains(term, "(exists ") {
+					return true
+				}
+				if depth > 200 {
+					return true
+				}
+				for _, n := range nameRe.FindAllString(term, -1) {
+					body, ok := defs[n]
+					if !ok {
+						continue
+					}
+					v, seen := memo[n]
+					if !seen {
+						memo[n] = false
+						v = quantified(body, depth+1)
+						memo[n] = v
+					}
+					if v {
+						return true
+					}
+				}
+				return false
+			}
+			var best *exitPoint
+			for k := range exits {
+				x := &exits[k]
+				if quantified(x.st.reach.S, 0) {
+					continue
+				}
+				if best == nil || x.pos < best.pos {
+					best = x
+				}
+			}
+			if best == nil {
+				best = &first
+			}
+			fx.items = append(fx.items, item{kind: "oblig", ob: ob, reach: best.st.reach, goal: False})
 			fx.obs = append(fx.obs, ob)
 		}
 	}
